@@ -88,6 +88,8 @@ def conveyor_store_subjects(tier, eager=False):
 def conveyor_subjects(tier):
     q = tier == "quick"
     out = []
+    if q:
+        out.append(S("cconv", 3, live=1, drain=1, eager_get=1, age_cap=4, grid=0.5, acc=1, ilen=1, clen=2.5, notime=1))   # non-multiple length (KF13)
     for kind in ("cconv", "sconv"):
         for acc in (1, 0):
             kw = {"delay": 1} if kind == "sconv" else {}
@@ -98,8 +100,9 @@ def conveyor_subjects(tier):
                 out.append(S(kind, 3, live=2, drain=1, eager_get=1, age_cap=6, grid=0.5, acc=acc, **kw))
                 out.append(S(kind, 2, live=2, drain=1, age_cap=4, grid=1, acc=acc, **kw))
     if not q:
-        out.append(S("cconv", 3, live=1, drain=1, eager_get=1, age_cap=4, grid=0.35, acc=1, ilen=0.7, speed=0.3 * 0 + 1, clen=2.1))
-        out.append(S("cconv", 2, live=1, drain=1, eager_get=1, age_cap=5, grid=0.5, acc=1, ilen=1, clen=2.5))
+        # lengths that are not a multiple of the item length (capacity as the library computes it: int(ceil(length)/item_length))
+        out.append(S("cconv", 4, live=1, drain=1, eager_get=1, age_cap=4, grid=0.35, acc=1, ilen=0.7, speed=1, clen=2.1))
+        out.append(S("cconv", 3, live=1, drain=1, eager_get=1, age_cap=5, grid=0.5, acc=1, ilen=1, clen=2.5))
     return out
 
 
